@@ -23,6 +23,7 @@ pub mod c01;
 pub mod c02;
 #[cfg(any(feature = "p02"))]
 pub mod pipe_catch;
+pub mod pipe;
 #[cfg(any(feature = "p03"))]
 pub mod c03;
 #[cfg(any(feature = "p04" , feature = "p07"))]
